@@ -2,6 +2,8 @@ package rules
 
 import (
 	"fmt"
+	"go/token"
+	"go/types"
 
 	"golang.org/x/tools/go/ssa"
 
@@ -329,4 +331,389 @@ func runREFLECTSET(c *Ctx) {
 	if n == 0 {
 		c.Note("no reflect.Value.Set in the tree package: nothing to check")
 	}
+}
+
+// ---- COMMAOK --------------------------------------------------------------------------
+
+func init() {
+	Register(&Rule{ID: "COMMAOK", Props: []string{"C01", "C05", "C13"}, Min: 3,
+		Doc: "the value half of a comma-ok result (x, ok := v.(T); x, ok := cache.Get(k)) is dereferenced, type-asserted or used as a node only where ok is known true: on the other branch it is the zero value (a nil *mastNode, a nil interface), and using it panics or answers for the wrong case (IsDirty on a persisted root; a cache miss treated as a hit).",
+		Run: runCOMMAOK})
+}
+
+func runCOMMAOK(c *Ctx) {
+	P := c.P
+	for _, fn := range P.Funcs {
+		if fn.Pkg.Pkg.Path() != ir.MastPath || c.Facts.debugOnlyFunc(fn) != "" {
+			continue
+		}
+		for _, b := range fn.Blocks {
+			for _, ins := range b.Instrs {
+				var tuple ssa.Value
+				what := ""
+				switch x := ins.(type) {
+				case *ssa.TypeAssert:
+					if x.CommaOk {
+						tuple, what = x, "type assertion "+pathDesc(ir.Sym(x.X))+".("+x.AssertedType.String()+")"
+					}
+				case *ssa.Call:
+					// (value, bool) from an interface method (NodeCache.Get)
+					if x.Call.IsInvoke() {
+						res := x.Call.Signature().Results()
+						if res.Len() == 2 {
+							if bt, ok := res.At(1).Type().Underlying().(*types.Basic); ok && bt.Kind() == types.Bool {
+								tuple, what = x, "result of "+x.Call.Method.Name()
+							}
+						}
+					}
+				case *ssa.Lookup:
+					if x.CommaOk {
+						tuple, what = x, "map lookup"
+					}
+				}
+				if tuple == nil || tuple.Referrers() == nil {
+					continue
+				}
+				var val, okv *ssa.Extract
+				for _, r := range *tuple.Referrers() {
+					if ex, isEx := r.(*ssa.Extract); isEx {
+						if ex.Index == 0 {
+							val = ex
+						} else if ex.Index == 1 {
+							okv = ex
+						}
+					}
+				}
+				if val == nil || val.Referrers() == nil {
+					continue
+				}
+				// uses that need a real value
+				seen := map[ssa.Value]bool{}
+				var uses []ssa.Instruction
+				var walk func(v ssa.Value)
+				walk = func(v ssa.Value) {
+					if seen[v] || v.Referrers() == nil {
+						return
+					}
+					seen[v] = true
+					for _, r := range *v.Referrers() {
+						switch y := r.(type) {
+						case *ssa.FieldAddr, *ssa.IndexAddr, *ssa.Field, *ssa.Index:
+							uses = append(uses, r)
+						case *ssa.UnOp:
+							if y.Op == token.MUL {
+								uses = append(uses, r)
+							}
+						case *ssa.TypeAssert:
+							if !y.CommaOk {
+								uses = append(uses, r)
+							}
+						case *ssa.Store:
+							// stored into a local variable: follow its loads
+							if a, isA := y.Addr.(*ssa.Alloc); isA && y.Val == v && a.Referrers() != nil {
+								for _, ar := range *a.Referrers() {
+									if ld, ok := ar.(*ssa.UnOp); ok && ld.Op == token.MUL {
+										walk(ld)
+									}
+								}
+							}
+						case ssa.CallInstruction:
+							if y.Common().IsInvoke() && y.Common().Value == v {
+								uses = append(uses, r)
+							} else if len(y.Common().Args) > 0 && y.Common().Args[0] == v && ir.Callee(y.Common()) != nil && ir.Callee(y.Common()).Signature.Recv() != nil {
+								uses = append(uses, r) // method call on the (possibly nil) value
+							}
+						}
+					}
+				}
+				walk(val)
+				for _, u := range uses {
+					pos := P.InstrPos(u)
+					w := fmt.Sprintf("use of the value of %s in %s", what, ir.FuncName(fn))
+					okKnown := false
+					if okv != nil {
+						for _, f := range ir.FactsAt(u.Block()) {
+							if f.Cond == ssa.Value(okv) && f.Truth {
+								okKnown = true
+							}
+						}
+					}
+					if okKnown {
+						c.OK(pos, w, "ok is known true here", false)
+					} else {
+						c.Violation(fn, pos, "comma-ok value used where ok is not known true",
+							"on the branch where the assertion / lookup failed the value is the zero value: dereferencing it panics, and treating it as a result answers for the wrong case ("+what+")")
+					}
+				}
+			}
+		}
+	}
+}
+
+// ---- COUNTCHECK -----------------------------------------------------------------------
+
+func init() {
+	Register(&Rule{ID: "COUNTCHECK", Props: []string{"C05", "C19", "C09"}, Min: 6,
+		Doc: "a node has as many values as keys and one link more: every comparison between the length of a node's (or decoded node's) Link list and an expression in the length of its Key or Value list normalises to len(Link) ≠ len(Key)+1, and every comparison between len(Key) and len(Value) to len(Key) ≠ len(Value); where such a comparison guards an error return or a panic, the failing edge is the one on which the counts differ. A decoder whose check is inverted or shifted rejects every well-formed interior node, or accepts malformed ones.",
+		Run: runCOUNTCHECK})
+}
+
+// lenOfField: v = len(X.<field>) for a struct field named Key, Value or Link (node or decoded string node).
+func lenOfField(v ssa.Value) (base string, field string, ok bool) {
+	call, isCall := ir.ResolveCell(v).(*ssa.Call)
+	if !isCall {
+		return "", "", false
+	}
+	if b, isB := call.Call.Value.(*ssa.Builtin); !isB || b.Name() != "len" {
+		return "", "", false
+	}
+	a := ir.ResolveCell(call.Call.Args[0])
+	ld, isLd := a.(*ssa.UnOp)
+	if !isLd || ld.Op != token.MUL {
+		return "", "", false
+	}
+	fa, isFA := ld.X.(*ssa.FieldAddr)
+	if !isFA {
+		return "", "", false
+	}
+	f := ir.FieldName(fa.X.Type(), fa.Field)
+	if f != "Key" && f != "Value" && f != "Link" {
+		return "", "", false
+	}
+	return ir.Sym(ir.ResolveCell(fa.X)), f, true
+}
+
+func runCOUNTCHECK(c *Ctx) {
+	P := c.P
+	for _, fn := range P.Funcs {
+		if fn.Pkg.Pkg.Path() != ir.MastPath || c.Facts.debugOnlyFunc(fn) != "" {
+			continue
+		}
+		for _, b := range fn.Blocks {
+			for _, ins := range b.Instrs {
+				// decoded (not yet validated) parallel lists: S.Value[i] under i < len(S.Key) needs len(S.Key) == len(S.Value)
+				if ia, ok := ins.(*ssa.IndexAddr); ok {
+					ld, isLd := ia.X.(*ssa.UnOp)
+					if !isLd || ld.Op != token.MUL {
+						continue
+					}
+					fa, isFA := ld.X.(*ssa.FieldAddr)
+					if !isFA || isNodePtr(fa.X.Type()) || ir.IsPtrToNamed(fa.X.Type(), "Node") {
+						continue
+					}
+					f := ir.FieldName(fa.X.Type(), fa.Field)
+					if f != "Key" && f != "Value" {
+						continue
+					}
+					if _, isC := ia.Index.(*ssa.Const); isC {
+						continue
+					}
+					base := ir.Sym(ir.ResolveCell(fa.X))
+					isym := ir.Sym(ia.Index)
+					other := "Key"
+					if f == "Key" {
+						other = "Value"
+					}
+					byOwn, byOther := false, false
+					for _, fld := range []string{f, other} {
+						fld := fld
+						ok := ir.FlowFact(ia, func(fc ir.Fact) bool {
+							return belowLenFact(fc, func(v ssa.Value) bool { return ir.Sym(v) == isym }) && func() bool {
+								bin := fc.Cond.(*ssa.BinOp)
+								for _, o := range []ssa.Value{bin.X, bin.Y} {
+									if bb, ff, ok := lenOfField(o); ok && bb == base && ff == fld {
+										return true
+									}
+								}
+								return false
+							}()
+						}, func(i ssa.Instruction) bool { return false })
+						if fld == f {
+							byOwn = ok
+						} else {
+							byOther = ok
+						}
+					}
+					if byOwn || !byOther {
+						continue
+					}
+					eq := ir.FlowFact(ia, func(fc ir.Fact) bool {
+						bin, ok := fc.Cond.(*ssa.BinOp)
+						if !ok {
+							return false
+						}
+						b1, f1, ok1 := lenOfField(bin.X)
+						b2, f2, ok2 := lenOfField(bin.Y)
+						if !ok1 || !ok2 || b1 != base || b2 != base || f1 == f2 {
+							return false
+						}
+						return (bin.Op == token.EQL && fc.Truth) || (bin.Op == token.NEQ && !fc.Truth)
+					}, func(i ssa.Instruction) bool {
+						st, ok := i.(*ssa.Store)
+						return ok && ir.MayClobber(ir.Sym(st.Addr), []string{base})
+					})
+					what := fmt.Sprintf("decoded %s.%s[%s] bounded by len(%s) in %s", pathDesc(base), f, pathDesc(isym), other, ir.FuncName(fn))
+					if eq {
+						c.OK(P.InstrPos(ia), what, "the two decoded lists were compared and found equally long", false)
+					} else {
+						c.Violation(fn, P.InstrPos(ia), "decoded lists indexed in parallel without comparing their lengths",
+							"the index is bounded by the length of the other decoded list; a stored node with more keys than values (or the reverse) makes the decoder panic (index out of range) instead of returning an error, so a root naming such a node crashes LoadMast instead of being rejected")
+					}
+					continue
+				}
+				bin, ok := ins.(*ssa.BinOp)
+				if !ok {
+					continue
+				}
+				switch bin.Op {
+				case token.EQL, token.NEQ, token.LSS, token.LEQ, token.GTR, token.GEQ:
+				default:
+					continue
+				}
+				// one side: len(X.F1); other side: len(X.F2) [+ k]
+				side := func(v ssa.Value) (string, string, int64, bool) {
+					if bb, f, ok := lenOfField(v); ok {
+						return bb, f, 0, true
+					}
+					if bo, ok := ir.ResolveCell(v).(*ssa.BinOp); ok && (bo.Op == token.ADD || bo.Op == token.SUB) {
+						if k, isK := ir.ConstInt(bo.Y); isK {
+							if bb, f, ok := lenOfField(bo.X); ok {
+								if bo.Op == token.SUB {
+									k = -k
+								}
+								return bb, f, k, true
+							}
+						}
+					}
+					return "", "", 0, false
+				}
+				b1, f1, k1, ok1 := side(bin.X)
+				b2, f2, k2, ok2 := side(bin.Y)
+				if !ok1 || !ok2 || f1 == f2 {
+					continue
+				}
+				if b1 != b2 {
+					continue // lengths of two different nodes (copy loops): not a shape check
+				}
+				// normalise: len(F1) + k1  OP  len(F2) + k2   →   len(Link) OP' len(Key|Value) + d
+				op := bin.Op
+				d := k2 - k1
+				if f2 == "Link" {
+					f1, f2 = f2, f1
+					d = -d
+					switch op {
+					case token.LSS:
+						op = token.GTR
+					case token.GTR:
+						op = token.LSS
+					case token.LEQ:
+						op = token.GEQ
+					case token.GEQ:
+						op = token.LEQ
+					}
+				}
+				want := int64(0)
+				if f1 == "Link" {
+					want = 1
+				}
+				pos := P.InstrPos(bin)
+				what := fmt.Sprintf("len(%s) %s len(%s)%+d in %s", f1, op, f2, d, ir.FuncName(fn))
+				if (op != token.NEQ && op != token.EQL) || d != want {
+					c.Violation(fn, pos, "count check does not state the node shape",
+						fmt.Sprintf("a node has len(Value) = len(Key) and len(Link) = len(Key)+1; this comparison says len(%s) %s len(%s)%+d: well-formed nodes are rejected (every interior node fails to load) or malformed ones accepted", f1, op, f2, d))
+					continue
+				}
+				// the edge on which the counts differ must be the failing one, when one of them fails
+				failing := func(sb *ssa.BasicBlock) bool {
+					if ir.PanicOnly(sb) {
+						return true
+					}
+					// leads straight to an error return
+					for n := 0; n < 4; n++ {
+						if len(sb.Instrs) > 0 {
+							if r, ok := sb.Instrs[len(sb.Instrs)-1].(*ssa.Return); ok {
+								ei := ir.ErrorResultIndex(fn.Signature)
+								return ei >= 0 && !ir.IsNilConst(r.Results[ei])
+							}
+						}
+						if len(sb.Succs) != 1 {
+							return false
+						}
+						sb = sb.Succs[0]
+					}
+					return false
+				}
+				// find the If this comparison (possibly through a short-circuit φ) feeds directly
+				var iff *ssa.If
+				if bin.Referrers() != nil {
+					for _, r := range *bin.Referrers() {
+						if i, ok := r.(*ssa.If); ok {
+							iff = i
+						}
+					}
+				}
+				if iff == nil {
+					c.OK(pos, what, "states the node shape", false)
+					continue
+				}
+				tb, fb := iff.Block().Succs[0], iff.Block().Succs[1]
+				diffEdge, sameEdge := tb, fb
+				if op == token.EQL {
+					diffEdge, sameEdge = fb, tb
+				}
+				switch {
+				case failing(sameEdge) && !failing(diffEdge):
+					c.Violation(fn, pos, "count check rejects well-formed nodes",
+						"the error/panic is taken when the counts agree with the node shape and not when they differ")
+				default:
+					c.OK(pos, what, "states the node shape; the failing edge is the one where the counts differ", false)
+				}
+			}
+		}
+	}
+}
+
+// ---- DEADRANGE ------------------------------------------------------------------------
+
+func init() {
+	Register(&Rule{ID: "DEADRANGE", Props: []string{"C05"}, Min: 0,
+		Doc: "contradiction check on the load path: a loop over (or the length of) a decoded list is never placed under a test that established the list to be nil — such a loop can never run, so what it was meant to copy (a stored node's child links) is silently dropped and the reloaded tree loses every entry below the top node.",
+		Run: func(c *Ctx) {
+			P := c.P
+			set := loadPathFuncs(c)
+			n := 0
+			for _, fn := range P.Funcs {
+				if !set[fn] {
+					continue
+				}
+				for _, b := range fn.Blocks {
+					for _, ins := range b.Instrs {
+						call, ok := ins.(*ssa.Call)
+						if !ok {
+							continue
+						}
+						if bi, ok := call.Call.Value.(*ssa.Builtin); !ok || bi.Name() != "len" {
+							continue
+						}
+						arg := call.Call.Args[0]
+						if _, isSlice := arg.Type().Underlying().(*types.Slice); !isSlice {
+							continue
+						}
+						as := ir.Sym(arg)
+						for _, f := range ir.FactsAt(b) {
+							tv, tnn, isNil := ir.NilTest(f.Cond)
+							if !isNil || f.Truth == tnn || ir.Sym(tv) != as {
+								continue
+							}
+							n++
+							c.Violation(fn, P.InstrPos(call), "list measured/iterated where it is known to be nil",
+								"the loop over "+pathDesc(as)+" sits on the branch where "+pathDesc(as)+" == nil was established: it never runs, and what it copies is lost")
+						}
+					}
+				}
+			}
+			if n == 0 {
+				c.OK("-", "no loop over a list known to be nil on the load path", "contradiction check", false)
+			}
+		}})
 }
